@@ -5,7 +5,7 @@ import ast
 from typing import Any, Dict, List, Optional
 
 from . import terms as T
-from .values import (Columns, DefaultDict, ClassRef, Each, EnumRef, ExtMod, Frame, FuncRef, GenCall, GroupBy, Obj, PyTuple, Ser, to_term)
+from .values import (Columns, DefaultDict, ClassRef, Each, EnumRef, ExtMod, Frame, FuncRef, GenCall, GroupBy, GuardedSeq, Obj, PyTuple, Ser, to_term)
 
 _CMP_METH = {"lt": "<", "le": "<=", "gt": ">", "ge": ">=", "eq": "==", "ne": "!="}
 REDUCTIONS = {"sum", "min", "max", "mean", "std", "count", "median", "nunique", "idxmax", "idxmin", "first", "last", "any", "all", "var", "prod", "size"}
@@ -553,6 +553,14 @@ class SeriesOps:
                     g.setcol(k, ("coldata", M_term(v)))
             self.log("frame-literal", node, dst=g.obj, cols={str(k): M_term(v) for k, v in data.items()})
             return g
+        # a concrete list of records with the same string keys: one column per key holding the records' values in order (== the dict-of-lists form)
+        if isinstance(data, list) and data and all(isinstance(r_, dict) and r_ and all(isinstance(k_, str) for k_ in r_) for r_ in data) and len({tuple(r_) for r_ in data}) == 1 \
+                and not any(isinstance(r_, Each) for r_ in data) and "columns" not in kw and "index" not in kw:
+            g = Frame(base, known=[])
+            for k_ in data[0]:
+                g.setcol(k_, ("coldata", M_term([r_[k_] for r_ in data])))
+            self.log("frame-literal", node, dst=g.obj, cols={k_: M_term([r_[k_] for r_ in data]) for k_ in data[0]})
+            return g
         dt = to_term(data)
         g = Frame(("records", dt, tuple(sorted((k, to_term(v)) for k, v in kw.items()))))
         if dt[0] == "comp" and isinstance(dt[2], tuple) and dt[2] and dt[2][0] == "dict" and all(T.is_const(k) and isinstance(k[1], str) for k, _ in dt[2][1]):
@@ -704,6 +712,15 @@ class SeriesOps:
             return ("getattr", to_term(a0), to_term(pos[1]))
         if fn in ("iter",):
             return ("iter", to_term(a0))
+        if fn == "next" and isinstance(a0, GuardedSeq) and len(pos) == 2:
+            # the first element whose condition holds, else the default
+            r = pos[1]
+            for c_, v_ in reversed(a0.entries):
+                if c_ == T.TRUE:
+                    r = v_
+                else:
+                    r = I.pm.merge_values(c_, v_, r) if hasattr(I.pm, "merge_values") else T.ite(c_, to_term(v_), to_term(r))
+            return r
         if fn == "next":
             return ("next", to_term(a0))
         if fn in ("any", "all"):
